@@ -65,8 +65,21 @@ func (h *history) keepBytes(desc string, live []byte) {
 }
 
 func (h *history) keepParts(desc string, live [][]byte) {
+	// snapshot every part first, then use the spare capacity of each the way append() would:
+	// parts that share one backing array overwrite their neighbours and fail the audit
 	for i := range live {
-		h.keepBytes(fmt.Sprintf("%s[part %d]", desc, i), live[i])
+		part, snap := live[i], append([]byte(nil), live[i]...)
+		h.add(fmt.Sprintf("%s[part %d]", desc, i), func() string {
+			if !bytes.Equal(part, snap) {
+				return fmt.Sprintf("bytes changed: now %s, were %s", hx(part), hx(snap))
+			}
+			return ""
+		})
+	}
+	for i := range live {
+		if spare := live[i][len(live[i]):cap(live[i])]; len(spare) > 0 {
+			scribble(spare)
+		}
 	}
 }
 
